@@ -91,7 +91,8 @@ def run(tier, seed):
                 if len(tape.trainable_params) != len(tr):
                     continue
                 Hp = np.asarray(Hp, dtype=float)
-                exp = np.moveaxis(Hg, [-2, -1], [0, 1]) if Hp.shape != Hg.shape else Hg
+                # param_shift_hessian puts the two parameter axes FIRST for vector-valued measurements
+                exp = np.moveaxis(Hg, [-2, -1], [0, 1]) if Hg.ndim > 2 else Hg
                 Hp, exp = np.squeeze(Hp), np.squeeze(exp)       # a single parameter / scalar measurement drops its axes
                 n_cmp += 1
                 if Hp.shape != exp.shape or not np.allclose(Hp, exp, atol=1e-7):
